@@ -6,7 +6,7 @@ from gev import core, stream, workload
 
 PROPERTY = "C01"
 LEVEL = "exploration"
-TECHNIQUE = "runtime monitor: reference type-checker on every value returned by the real create/map/mutate/crossover API and on every fitness-function argument, over generated grammars x 5 representations x operation sequences"
+TECHNIQUE = "runtime monitor: reference type-checker on every value returned by the real create/map/mutate/crossover API and on every fitness-function argument, over generated grammars x 5 representations x operation sequences; the same checker on every program kept by geml estimators fitted on everyday data sets"
 RULE = (
     "cases = (generated grammar descriptor, representation, decider, depth, seed, random op sequence of create/map/mutate/crossover "
     "[+ short GP/RS/HC/1+1 search]); every returned program and every fitness argument is checked by the reference type checker; "
